@@ -96,6 +96,10 @@ def gen_program(r, errors=False):
 
 
 HAND = [
+    # a default text spelled like another formal (or like the formal itself) is text, not a usage of that formal
+    "`define M(a, b=a) [a|b]\n`M(1)\n`M(1,2)\n`M(1,)\n",
+    "`define N(x=y, y=x) <x y>\n`N()\n`N(1)\n`N(,2)\n`N(1,2)\n",
+    "`define P(a, b=a+a, c=b) a b c\n`P(7)\n`P(7,8)\n`define R(s=s) s s\n`R()\n`R(q)\n",
     "`define W(y) \"\\\"\" y y``y\n`W(p)\n",                              # escaped quote inside a body string (fixed in 88521f3)
     "`define L(tag,msg) \\\n$display(\"\",tag,\": msg=\",msg);\n`L(id,val)\n",     # body starts on the continuation line, empty string first
     "`define Q(a) \"a\\\\\" a \"\\\\\\\"a\" a\n`Q(z)\n",                         # \\ before the closing quote, \\\" inside
